@@ -1,7 +1,9 @@
 """The analysed program: fact files for one configuration + call graph."""
 import re
 
-from . import extract, graph, mir
+import os
+
+from . import extract, graph, inline, mir
 
 
 class AnchorMissing(Exception):
@@ -15,6 +17,10 @@ class World:
         crates = mir.load(self.facts_dir)
         self.lib = crates["lib"]
         self.bin = crates["bin"]
+        self.inline_report = None
+        if not os.environ.get("CV_NO_INLINE"):
+            vocab = inline.load_vocab()
+            self.inline_report = {"lib": inline.inline_crate(self.lib, vocab), "bin": inline.inline_crate(self.bin, vocab)}
         self._graph = None
 
     @property
@@ -46,4 +52,5 @@ class World:
             len(b.events) for b in self.bin.bodies.values())
         return {"config": self.config, "bodies": nb, "lib_bodies": len(self.lib.bodies),
                 "bin_bodies": len(self.bin.bodies), "call_sites": calls,
-                "debug_assertions": self.lib.debug_assertions}
+                "debug_assertions": self.lib.debug_assertions,
+                "dissolved_private_helpers": (self.inline_report or {}).get("lib", {}).get("helpers", {})}
